@@ -480,6 +480,7 @@ def run(pid, tier, replay_file=None):
         observations_represented_by_events=sum(i.get("count", 1) for i in ev_info.values()),
         class_table=dict(classes=len(table.attr), code_points_classified=len(table._cache)),
         library_names_not_in_GenNames=table.library_names_missing(),
+        mapping_observed_through=(nf._fn(), nf.MAPPER)[1],
         sweep=sweep, timing=timing,
         violation_keys={"|".join(str(x) for x in k): g["count"] for k, g in rep.groups.items()},
     )
